@@ -46,6 +46,16 @@ pub fn gen_scenario(r: &mut Rng, big: bool) -> Scenario {
         args.push("-M".into());
         args.push(format!("{}|-|0:1:rx,g:1,0x1000:1:rw", crate::rng::hex(path.as_bytes())));
     }
+    // mappings with every other protection combination (write-only, write+exec, exec-only, rwx)
+    if r.chance(1, 3) {
+        let path = format!("{}/protmod.bin", crate::live::run_dir("shared"));
+        if !std::path::Path::new(&path).exists() {
+            let bytes: Vec<u8> = (0..16384u32).map(|i| (i * 11 + 5) as u8).collect();
+            std::fs::write(&path, bytes).unwrap();
+        }
+        args.push("-M".into());
+        args.push(format!("{}|-|0:1:w,0x1000:1:wx,0x2000:1:x,0x3000:1:rwx", crate::rng::hex(path.as_bytes())));
+    }
     // a thread or two waiting with an unusual stack pointer: null (a sandbox helper: skipped by design),
     // all-ones, tiny, unmapped, the last page of the address space
     if nblock >= 2 && r.chance(1, 3) {
